@@ -270,7 +270,7 @@ def frame_cases(draw, tier, manager):
         if gt and draw(st.integers(0, 3)) > 0:
             g = gt[draw(st.integers(0, len(gt) - 1))]
             r = draw(fl(1.0, 12.0))
-            areas.append(draw(prisms(centre=[g["p"][0] + draw(fl(-r, r)), g["p"][1] + draw(fl(-r, r))], radius=r)))
+            areas.append(draw(prisms(centre=[g["p"][0] + draw(fl(-r / 2, r / 2)), g["p"][1] + draw(fl(-r / 2, r / 2))], radius=r)))
         else:
             areas.append(draw(prisms()))
     npts = 25 if tier == "quick" else 50
